@@ -500,6 +500,13 @@ def rule_cx(ctx, tu):
         v = coord[k]
         ext = EXT_OF_AXIS[k]
         stores = [s for s in cxa.all_stores(body) if s.base and s.base[1] == v and s.op == "="]
+        comp = [s for s in cxa.all_stores(body) if s.base and s.base[1] == v and s.op in ("%=", "+=", "-=")]
+        if not stores and comp:
+            # `xn %= w` : the C++ remainder keeps the sign of xn, -1 stays -1
+            ctx.violation("C15.DISP", n, f.qual, "periodic wrap of %s: %s" % (v, text(body)[:70]), "the periodic wrap of axis %s is "
+                          "`%s %s %s`: for the coordinate -1 the C++ remainder is -1, not %s-1; the low side of the axis loses its "
+                          "neighbour while the high side keeps it" % ("xyz"[k], v, comp[0].op, text(comp[0].rhs), ext))
+            continue
         ctx.need(stores, R, "GetNeighborIndex: wrap of axis %s assigns nothing" % "xyz"[k])
         ok, why = False, "wrap form not recognised"
         if len(stores) == 1 and strip(stores[0].rhs, casts=True).get("kind") == "BinaryOperator" and \
